@@ -54,3 +54,14 @@ func lemmaChecksumVerifies(prefix string, payload []byte) bool {
 	c := createChecksum(prefix, payload)
 	return verifyChecksum(prefix, cat(payload, c))
 }
+
+// lemmaDecodeEncodeCashAddr: DecodeCashAddress(prefix + ":" + encode(prefix, payload)) returns the prefix
+// and the payload symbols without error, for every non-empty lower-case prefix and every payload of
+// 5-bit symbols. The first two statements are ghost computations that name the symbol sequence encode
+// emits (payload followed by its checksum) and record that it is a code word.
+func lemmaDecodeEncodeCashAddr(prefix string, payload []byte) (string, []byte, error) {
+	q := cat(payload, createChecksum(prefix, payload))
+	verifyChecksum(prefix, q)
+	s := prefix + ":" + encode(prefix, payload)
+	return DecodeCashAddress(s)
+}
